@@ -188,3 +188,185 @@ Definition same_but_links (w w' : wrapper) : Prop :=
   w_just w' = w_just w /\ w_fin w' = w_fin w /\ w_log w' = w_log w /\
   pa_off (w_pa w') = pa_off (w_pa w) /\ pa_idx (w_pa w') = pa_idx (w_pa w) /\ pa_bs (w_pa w') = pa_bs (w_pa w) /\
   length (pa_nodes (w_pa w')) = length (pa_nodes (w_pa w)).
+
+(* C10 update_outside_refused: a new finalized checkpoint whose root the array reports as unknown or outside the subtree of the
+   current finalized root is refused, and nothing but the array's refreshed links changes: votes, balances, checkpoints, pin, and
+   the node set stay; nothing is pruned, the sink is not called. For every state, trigger, justified pair, balances, sink. *)
+Lemma updateJustified_refuses_outside : forall w f j bal pa' u i,
+  cp_eqb (w_fin w) f = false -> fst f <= fst j ->
+  InSubtree fixed (snd (w_fin w)) (snd f) (w_pa w) = (pa', Ok (u, i)) -> (u = true \/ i = false) ->
+  updateJustified fixed f j bal w = (set_pa w pa', Err).
+Proof.
+  intros w f j bal pa' u i Hne Hle Hin Hout.
+  unfold updateJustified.
+  replace (fst j <? fst f) with false by (symmetry; apply N.ltb_ge; exact Hle).
+  unfold mbind at 1. unfold get at 1. unfold mbind at 1. rewrite Hne. cbn [negb].
+  unfold mbind at 1. unfold inner_InSubtree. cbn [f_relock fixed]. unfold lift_pa at 1. rewrite Hin.
+  destruct Hout as [-> | ->]; cbn; [reflexivity|]. destruct u; reflexivity.
+Qed.
+
+Theorem update_outside_refused : forall sink trigger j f bal w pa' u i,
+  w_locked w = false ->
+  (fst (w_just w) < fst j \/ fst (w_fin w) < fst f) ->           (* not an older-or-equal pair *)
+  (match w_pin w with Some p => trigger = fst p | None => True end) ->   (* the pin does not object *)
+  cp_eqb (w_fin w) f = false -> fst f <= fst j ->
+  InSubtree fixed (snd (w_fin w)) (snd f) (w_pa w) = (pa', Ok (u, i)) -> (u = true \/ i = false) ->
+  W_UpdateJustified fixed sink trigger j f bal w = (set_pa w pa', Err).
+Proof.
+  intros sink trigger j f bal w pa' u i Hw Hnew Hpin Hne Hle Hin Hout.
+  unfold W_UpdateJustified, locked_call. rewrite Hw.
+  unfold UpdateJustified_body. unfold mbind at 1. unfold get at 1.
+  assert (Hc : (fst j <=? fst (w_just (set_locked w true))) && (fst f <=? fst (w_fin (set_locked w true))) = false).
+  { cbn [w_just w_fin set_locked]. apply andb_false_iff. destruct Hnew; [left|right]; apply N.leb_gt; assumption. }
+  rewrite Hc. unfold mbind at 1.
+  assert (Hp : (match w_pin (set_locked w true) with
+                | Some pin => if negb (trigger =? fst pin)
+                              then mbind (inner_InSubtree fixed (fst pin) trigger)
+                                         (fun ui => if fst ui then fail Err else if negb (snd ui) then fail Err else ret tt)
+                              else ret tt
+                | None => ret tt end) (set_locked w true) = (set_locked w true, Ok tt)).
+  { cbn [w_pin set_locked]. destruct (w_pin w) as [p|]; [|reflexivity]. subst trigger. rewrite N.eqb_refl. reflexivity. }
+  rewrite Hp. cbn [f_argorder fixed]. unfold mbind at 1.
+  rewrite (updateJustified_refuses_outside (set_locked w true) f j bal pa' u i); auto.
+  destruct w; cbn in *; subst; reflexivity.
+Qed.
+
+(* ---------- C10 prune: what is dropped is what the sink acknowledged, each node reported once, in order ---------- *)
+Definition slice {A} (l : list A) (j cnt : nat) : list A := firstn cnt (skipn j l).
+Lemma slice_step {A} (l : list A) j cnt x : nth_error l j = Some x -> slice l j (S cnt) = x :: slice l (S j) cnt.
+Proof.
+  unfold slice. revert j. induction l as [|a l IH]; intros j H; [destruct j; discriminate|].
+  destruct j; cbn in *; [inversion H; reflexivity|]. apply IH. exact H.
+Qed.
+
+Lemma collect_refs : forall cnt pa i hi canon acc l,
+  collect_pruned fixed pa cnt i hi canon acc = Ok l -> pa_off pa <= i ->
+  map fst l = rev (map fst acc) ++ map n_ref (slice (pa_nodes pa) (N.to_nat (i - pa_off pa)) cnt).
+Proof.
+  induction cnt; intros pa i hi canon acc l H Hi; cbn [collect_pruned] in H.
+  - inversion H. subst. unfold slice. cbn. rewrite app_nil_r, map_rev. reflexivity.
+  - cbn [f_prune_loop f_prune_canon f_prune_nilsink fixed orb] in H.
+    unfold rawNode in H. destruct (nthN (pa_nodes pa) (i - pa_off pa)) as [node|] eqn:En; [|discriminate]. cbn [bind] in H.
+    cbv zeta in H. apply IHcnt in H; [|lia]. rewrite H. simpl map. simpl rev.
+    unfold nthN in En. destruct (i - pa_off pa <? lenN (pa_nodes pa)); [|discriminate].
+    rewrite (slice_step _ _ _ _ En). simpl map.
+    replace (N.to_nat (i + 1 - pa_off pa)) with (S (N.to_nat (i - pa_off pa))) by lia.
+    generalize (map n_ref (slice (pa_nodes pa) (S (N.to_nat (i - pa_off pa))) cnt)) as tl_.
+    generalize (rev (map fst acc)) as hd_. intros hd_ tl_. induction hd_; simpl; [reflexivity|f_equal; assumption].
+Qed.
+
+Lemma sink_loop_spec sink : forall l k calls upto failed out,
+  sink_loop sink k l calls = (upto, failed, out) ->
+  exists m, out = rev calls ++ firstn (m + if failed then 1 else 0) l /\ upto = k + N.of_nat m /\
+            (m + (if failed then 1 else 0) <= length l)%nat /\ (failed = false -> m = length l).
+Proof.
+  induction l as [|[r c] l IH]; intros k calls upto failed out H; cbn [sink_loop] in H.
+  - inversion H. subst. exists 0%nat. cbn. rewrite app_nil_r. repeat split; lia.
+  - destruct (sink k r c).
+    + apply IH in H. destruct H as [m [E1 [E2 [E3 E4]]]]. exists (S m). cbn [rev] in E1. rewrite <- app_assoc in E1. cbn in E1.
+      repeat split; [exact E1 | lia | cbn; lia | intros F; rewrite (E4 F); reflexivity].
+    + inversion H. subst. exists 0%nat. cbn. repeat split; try lia; try discriminate.
+Qed.
+
+Lemma drop_pruned_refs fx : forall l pa, map n_ref (pa_nodes (drop_pruned fx l pa)) = skipn (length l) (map n_ref (pa_nodes pa)).
+Proof.
+  induction l as [|[r c] l IH]; intros pa; cbn [drop_pruned]; [reflexivity|].
+  rewrite IH. cbn [pa_nodes length]. destruct (pa_nodes pa); cbn; [destruct (length l); reflexivity|reflexivity].
+Qed.
+
+Lemma reparent_refs : forall nodes off ai ar asl, map n_ref (fst (fst (reparent_loop nodes off ai ar asl))) = map n_ref nodes.
+Proof.
+  induction nodes as [|n nodes IH]; intros; cbn [reparent_loop]; [reflexivity|].
+  specialize (IH off ai ar asl). destruct (reparent_loop nodes off ai ar asl) as [[rest' w] ch]. cbn [fst] in IH.
+  destruct (_ && _); cbn [fst map]; rewrite IH; reflexivity.
+Qed.
+Lemma upd_nth_refs (nodes : list node) : forall i n, (forall m, nth_error nodes i = Some m -> n_ref n = n_ref m) ->
+  map n_ref (upd_nth nodes i n) = map n_ref nodes.
+Proof.
+  induction nodes as [|a nodes IH]; intros i n H; [reflexivity|]. destruct i; cbn.
+  - rewrite (H a eq_refl). reflexivity.
+  - rewrite IH; [reflexivity|]. intros m Hm. apply H. exact Hm.
+Qed.
+
+(* C10 prune, for every array state, anchor and sink behaviour: the nodes removed are a prefix of the node table; with a sink,
+   exactly those nodes were handed to it, once each and in order; if the sink refused a node, that node is the one extra call,
+   it stays in the array and the prune reports failure *)
+Theorem prune_reports_once : forall sink ar asl pa pa' calls failed,
+  OnPrune_core fixed sink ar asl pa = (pa', Ok (calls, failed)) ->
+  exists pa1 k,
+    map n_ref (pa_nodes pa') = skipn k (map n_ref (pa_nodes pa1)) /\
+    (pa_sink_nil pa1 = false -> map fst calls = firstn (k + if failed then 1 else 0) (map n_ref (pa_nodes pa1))) /\
+    (pa_sink_nil pa1 = true -> calls = [] /\ failed = false) /\
+    (failed = true -> (k < length (pa_nodes pa1))%nat).
+Proof.
+  intros sink ar asl pa pa' calls failed. unfold OnPrune_core. unfold mbind at 1. unfold get at 1.
+  destruct (idx_get (pa_idx pa) (ar, asl)) as [ai|]; cbn [ret].
+  2: { intros H. inversion H. subst. exists pa', 0%nat. cbn. repeat split; auto; discriminate. }
+  destruct (ai =? pa_off pa).
+  { intros H. inversion H. subst. exists pa', 0%nat. cbn. repeat split; auto; discriminate. }
+  unfold mbind at 1. destruct (FindHead fixed ar asl pa) as [pa1 oh]. destruct oh as [head| | | |]; try discriminate.
+  unfold mbind at 1. unfold get at 1.
+  destruct (idx_get (pa_idx pa1) head) as [hi|]; [|discriminate].
+  cbn [f_prune_canon fixed]. unfold mbind at 1.
+  match goal with |- context [mbind (lift_o (rawNode pa1 ?x)) _] => destruct (rawNode pa1 x) as [an| | | |] eqn:Ean end;
+    unfold mbind at 1, lift_o at 1; try discriminate.
+  unfold mbind at 1, lift_o at 1.
+  destruct (canon_set _ pa1 (n_tp an) []) as [canon| | | |]; try discriminate.
+  unfold mbind at 1, lift_o at 1.
+  destruct (collect_pruned fixed pa1 (N.to_nat (ai - pa_off pa1)) (pa_off pa1) hi canon []) as [pruned| | | |] eqn:Ec; try discriminate.
+  pose proof (collect_refs _ _ _ _ _ _ _ Ec (N.le_refl _)) as Hrefs. cbn [map rev app] in Hrefs.
+  rewrite N.sub_diag in Hrefs. unfold slice in Hrefs. cbn [N.to_nat skipn] in Hrefs.
+  cbn [f_prune_maps f_prune_reparent fixed].
+  destruct (pa_sink_nil pa1) eqn:Enil.
+  - (* nil sink: everything collected is dropped, no call *)
+    cbn [negb]. unfold mbind at 1.
+    set (pa3 := drop_pruned fixed (firstn (N.to_nat (lenN pruned)) pruned) pa1).
+    match goal with |- context [lift_o (rawNode pa3 ?x)] => destruct (rawNode pa3 x) as [an3| | | |] eqn:Ean3 end;
+      unfold lift_o at 1; try discriminate.
+    destruct (reparent_loop (pa_nodes pa3) (pa_off pa3) ai ar asl) as [[nodes' w] ch] eqn:Erp.
+    unfold mbind, put, ret. intros H. inversion H. subst pa' calls failed. clear H.
+    exists pa1, (length pruned). cbn [pa_nodes].
+    assert (Hdrop : map n_ref (pa_nodes pa3) = skipn (length pruned) (map n_ref (pa_nodes pa1))).
+    { unfold pa3. rewrite drop_pruned_refs. f_equal. unfold lenN. rewrite Nat2N.id. rewrite firstn_all. reflexivity. }
+    split; [|split; [congruence|split; [auto|discriminate]]].
+    destruct ch; [|exact Hdrop].
+    pose proof (reparent_refs (pa_nodes pa3) (pa_off pa3) ai ar asl) as Hr. rewrite Erp in Hr. cbn [fst] in Hr.
+    rewrite <- Hdrop, <- Hr. unfold updN. destruct (_ <? _); [|reflexivity].
+    apply upd_nth_refs. intros m Hm. cbn.
+    (* the anchor node keeps its ref: it is the node read at that position *)
+    unfold rawNode, nthN in Ean3. destruct (_ <? _) in Ean3; [|discriminate].
+    assert (Hm' : nth_error (map n_ref nodes') (N.to_nat (sub64 ai (pa_off pa3))) = Some (n_ref m)) by (rewrite nth_error_map, Hm; reflexivity).
+    rewrite Hr in Hm'. rewrite nth_error_map in Hm'. destruct (nth_error (pa_nodes pa3) _); [|discriminate]. inversion Ean3. subst. inversion Hm'. reflexivity.
+  - cbn [negb].
+    destruct (sink_loop sink 0 pruned []) as [[upto fl] cl] eqn:Es.
+    pose proof (sink_loop_spec sink _ _ _ _ _ _ Es) as [m [E1 [E2 [E3 E4]]]]. cbn [rev app] in E1. rewrite N.add_0_l in E2. subst upto.
+    set (pa3 := drop_pruned fixed (firstn (N.to_nat (N.of_nat m)) pruned) pa1).
+    assert (Hdrop : map n_ref (pa_nodes pa3) = skipn m (map n_ref (pa_nodes pa1))).
+    { unfold pa3. rewrite drop_pruned_refs. f_equal. rewrite Nat2N.id. apply firstn_length_le. lia. }
+    assert (Hcalls : map fst cl = firstn (m + (if fl then 1 else 0)) (map n_ref (pa_nodes pa1))).
+    { assert (Hlp : length pruned = length (firstn (N.to_nat (ai - pa_off pa1)) (pa_nodes pa1))).
+      { rewrite <- (map_length fst pruned), Hrefs, map_length. reflexivity. }
+      rewrite firstn_length in Hlp.
+      rewrite E1. rewrite <- firstn_map, Hrefs. rewrite !firstn_map. rewrite firstn_firstn. f_equal. f_equal. lia. }
+    assert (Hfail : fl = true -> (m < length (pa_nodes pa1))%nat).
+    { intros ->. assert (length pruned <= length (pa_nodes pa1))%nat.
+      { rewrite <- (map_length fst pruned), Hrefs, map_length, firstn_length. lia. }
+      lia. }
+    destruct fl.
+    + unfold mbind, put, ret. intros H. inversion H. subst pa' calls failed. clear H.
+      exists pa1, m. split; [exact Hdrop|]. split; [intros _; exact Hcalls|]. split; [congruence|auto].
+    + unfold mbind at 1.
+      match goal with |- context [lift_o (rawNode pa3 ?x)] => destruct (rawNode pa3 x) as [an3| | | |] eqn:Ean3 end;
+        unfold lift_o at 1; try discriminate.
+      destruct (reparent_loop (pa_nodes pa3) (pa_off pa3) ai ar asl) as [[nodes' w] ch] eqn:Erp.
+      unfold mbind, put, ret. intros H. inversion H. subst pa' calls failed. clear H.
+      exists pa1, m. cbn [pa_nodes].
+      split; [|split; [intros _; exact Hcalls|split; [congruence|discriminate]]].
+      destruct ch; [|exact Hdrop].
+      pose proof (reparent_refs (pa_nodes pa3) (pa_off pa3) ai ar asl) as Hr. rewrite Erp in Hr. cbn [fst] in Hr.
+      rewrite <- Hdrop, <- Hr. unfold updN. destruct (_ <? _); [|reflexivity].
+      apply upd_nth_refs. intros m0 Hm. cbn.
+      unfold rawNode, nthN in Ean3. destruct (_ <? _) in Ean3; [|discriminate].
+      assert (Hm' : nth_error (map n_ref nodes') (N.to_nat (sub64 ai (pa_off pa3))) = Some (n_ref m0)) by (rewrite nth_error_map, Hm; reflexivity).
+      rewrite Hr in Hm'. rewrite nth_error_map in Hm'. destruct (nth_error (pa_nodes pa3) _); [|discriminate]. inversion Ean3. subst. inversion Hm'. reflexivity.
+Qed.
